@@ -42,6 +42,33 @@ HASH = {"blake2b": hashlib.blake2b, "sha512": hashlib.sha512, "sha256": hashlib.
 NAMES = ["a.patch", "b-1.2.diff", "init.d", "Z", "x.conf", "x+y", "00", "ChangeLog", "metadata.xml", "README", "zz.ebuild.bak", "ebuild"]
 
 
+class bounded_buffer:
+    """fsrec's write proxy buffers like a file object with an unbounded buffer: data reaches the disk at close().  A
+    real file object flushes inside write() once its (8 KiB) buffer is full, so an I/O error or a cut can also strike
+    INSIDE write(), before the writer's own close()/discard() logic runs.  With this context manager the proxy's buffer
+    holds at most `limit` bytes, so both shapes of a write are crash points (scenarios alternate)."""
+
+    def __init__(self, limit):
+        self.limit = limit
+
+    def __enter__(self):
+        from pylib import fsrec
+        self.cls, self.orig = fsrec._FileProxy, fsrec._FileProxy.write
+        orig, limit = self.orig, self.limit
+
+        def write(p, data):
+            r = orig(p, data)
+            if getattr(p, "_buffered", False) and limit is not None and sum(len(x) for x in p._pending) > limit:
+                p.flush()
+            return r
+        self.cls.write = write
+        return self
+
+    def __exit__(self, *a):
+        self.cls.write = self.orig
+        return False
+
+
 def cps(s):
     return [ord(c) for c in s]
 
@@ -322,8 +349,9 @@ def run(ck):
             return parsed_view(os.path.join(rt2, "cat", "pkg", "Manifest"))
 
         rt2 = os.path.join(root, f"r{tid}")
-        evs, info = atomic.scenario(tid, rt2, setup, op, reader=reader, watch_paths=["cat/pkg/Manifest"],
-                                    frame=["cat/pkg/Manifest", "cat/pkg/.update.Manifest"], faults=True, label="manifest.update")
+        with bounded_buffer(8 if tid % 2 else None):  # odd cases: the text hits the disk inside write(), not at close()
+            evs, info = atomic.scenario(tid, rt2, setup, op, reader=reader, watch_paths=["cat/pkg/Manifest"],
+                                        frame=["cat/pkg/Manifest", "cat/pkg/.update.Manifest"], faults=True, label="manifest.update")
         fs_events += evs
         ck.extra["crash_points"] = ck.extra.get("crash_points", 0) + info["crash_points"]
         # ---- (5) recovery: after a cut anywhere, a completed update() yields the exact Manifest again ----
